@@ -374,5 +374,38 @@ fn main() {
         }
     }
     run.merge(t);
+    // character sweep: every ASCII and 64 special non-ASCII characters inside values
+    {
+        let mut t = Tally::new();
+        let chars = mc_core::chars::all();
+        run.bound(format!("character sweep: {} characters in 5 value positions on the minimal complete entry", chars.len()));
+        for c in chars {
+            let opsv = vec![
+                Op::Set(2, Val::S(format!("a{}", c))),
+                Op::Set(15, Val::S(format!("{}-1", c))),
+                Op::Push(5, format!("{}", c)),
+                Op::Set(9, Val::S(format!("{}", c))),
+                Op::Set(4, Val::A(vec![format!("x{}y", c), format!("{}", c)])),
+            ];
+            if let Some((mut real, mut model)) = build("minimal", &[], &mut t) {
+                let mut hist = vec![];
+                for op in opsv {
+                    hist.push(op.clone());
+                    if guard(|| op.apply_real(&mut real)).is_err() {
+                        t.violation(Violation::new("history", hist_json("minimal", &hist), json!("returns"), json!("panic"), "setter panicked"));
+                        break;
+                    }
+                    op.apply_model(&mut model);
+                    t.states += 1;
+                    t.transitions += 1;
+                    let h = hist.clone();
+                    if !check_state(&mut t, &real, &model, &move || hist_json("minimal", &h)) {
+                        break;
+                    }
+                }
+            }
+        }
+        run.merge(t);
+    }
     run.finish();
 }
